@@ -182,10 +182,12 @@ impl EchoIncPayloadAnsCreator {
 
     /// Fill payload and properly mutate this as required.
     pub fn payload(&mut self, data: &[u8]) -> &mut Self {
-        self.data[1..=data.len()].iter_mut().zip(data.iter()).for_each(|(dst, &src)| {
+        // an echo request longer than what an answer can carry is echoed truncated
+        let len = data.len().min(EchoIncPayloadAnsPayload::max_len());
+        self.data[1..=len].iter_mut().zip(data.iter()).for_each(|(dst, &src)| {
             *dst = src.wrapping_add(1);
         });
-        self.payload_len = data.len();
+        self.payload_len = len;
         self
     }
 }
